@@ -369,13 +369,16 @@ class Body:
         return out
 
     # -- origins ------------------------------------------------------------------------------
-    def origin_op(self, op, depth=0, subst=None):
+    # Origins are reaching-definition expressions. `at` (a Site) makes the lookup flow-sensitive
+    # for locals with several definitions (mutable variables, reassigned parameters): only the
+    # definitions that can reach `at` without being overwritten are considered.
+    def origin_op(self, op, depth=0, subst=None, at=None):
         if "k" in op:
             return self._origin_const(op["k"], depth, subst)
         if "rt" in op:
             return "rt"
         p = op.get("c") or op.get("m")
-        return self.origin_place(p, depth, subst)
+        return self.origin_place(p, depth, subst, at)
 
     def _origin_const(self, k, depth, subst):
         if "promoted" in k:
@@ -394,12 +397,54 @@ class Body:
             return "const:" + k["v"]
         return "const:" + k["s"][:80]
 
-    def origin_place(self, p, depth=0, subst=None):
-        base = self.origin_local(p["l"], depth, subst)
-        return apply_proj(base, p["pj"], lambda l: self.origin_local(l, depth + 1, subst))
+    def origin_place(self, p, depth=0, subst=None, at=None):
+        base = self.origin_local(p["l"], depth, subst, None, at)
+        return apply_proj(base, p["pj"], lambda l: self.origin_local(l, depth + 1, subst, None, at))
 
-    def origin_local(self, l, depth=0, subst=None, _stack=None):
-        key = (l, tuple(sorted(subst.items())) if subst else None)
+    def _def_reaches(self, l, dsite, at, others):
+        """Can the definition at dsite (None = function entry) reach `at` without passing another
+        definition of l? others: set of (bb, idx) of the other definitions."""
+        kill_by_bb = defaultdict(list)
+        for (b, i) in others:
+            kill_by_bb[b].append(i)
+        if dsite is None:
+            start_bb, start_idx = 0, -1
+        else:
+            start_bb, start_idx = dsite.bb, dsite.idx
+        # same block, straight line
+        def killed_between(b, lo, hi):
+            return any(lo < i < hi for i in kill_by_bb.get(b, ()))
+
+        if start_bb == at.bb and start_idx < at.idx and not killed_between(start_bb, start_idx, at.idx):
+            return True
+        # is the rest of the start block free of kills?
+        if any(i > start_idx for i in kill_by_bb.get(start_bb, ())):
+            return False
+        seen = set()
+        stack = [s for s, _ in self.succs(start_bb, "full")]
+        while stack:
+            b = stack.pop()
+            if b in seen:
+                continue
+            seen.add(b)
+            if b == at.bb:
+                if not killed_between(b, -1, at.idx):
+                    return True
+                # killed before reaching `at` in this block; a later kill-free loop re-entry is impossible
+                continue
+            if kill_by_bb.get(b):
+                continue
+            for s, _ in self.succs(b, "full"):
+                if s not in seen:
+                    stack.append(s)
+        return False
+
+    def origin_local(self, l, depth=0, subst=None, _stack=None, at=None):
+        ds = self.full_defs(l)
+        is_param = 1 <= l <= self.argc
+        multi = len(ds) > 1 or (is_param and ds)
+        atkey = at.key() if (at is not None and multi) else None
+        key = (l, tuple(sorted(subst.items())) if subst else None, atkey)
         if key in self._origin_cache:
             return self._origin_cache[key]
         if depth > 14:
@@ -408,31 +453,41 @@ class Body:
             _stack = ()
         if l in _stack:
             return "rec"
-        if 1 <= l <= self.argc and not self.full_defs(l):
-            if subst is not None and l in subst:
-                r = subst[l]
-            else:
-                r = "$%d" % l
-            self._origin_cache[key] = r
-            return r
-        ds = self.full_defs(l)
+        pname = (subst[l] if (subst is not None and l in subst) else "$%d" % l) if is_param else None
+        if is_param and not ds:
+            self._origin_cache[key] = pname
+            return pname
         if not ds:
-            # closure upvar / pattern binding assigned only by projection or never: use local id
-            r = "undef_%d" % l if not (1 <= l <= self.argc) else "$%d" % l
+            r = "undef_%d" % l
             self._origin_cache[key] = r
             return r
+        cands = list(ds)
+        include_param = is_param
+        if atkey is not None:
+            allsites = {(d[0].bb, d[0].idx) for d in ds}
+            cands = [d for d in ds if self._def_reaches(l, d[0], at, allsites - {(d[0].bb, d[0].idx)})]
+            if is_param:
+                include_param = self._def_reaches(l, None, at, allsites)
+            if not cands and not include_param:
+                cands = list(ds)
+                include_param = is_param
         outs = []
-        for site, kind, node in ds:
+        for site, kind, node in cands:
             outs.append(self._origin_def(site, kind, node, depth + 1, subst, _stack + (l,)))
+        if include_param:
+            outs.append(pname)
         u = sorted(set(outs))
-        if 1 <= l <= self.argc:
-            u = sorted(set(u + ["$%d" % l if not (subst and l in subst) else subst[l]]))
         r = u[0] if len(u) == 1 else "phi{" + " | ".join(u) + "}"
         if "rec" not in r:
             self._origin_cache[key] = r
         return r
 
     def _origin_def(self, site, kind, node, depth, subst, stack):
+        at = site
+
+        def op_place(p):
+            return apply_proj(self.origin_local(p["l"], depth, subst, stack, at), p["pj"], lambda l: self.origin_local(l, depth + 1, subst, stack, at))
+
         def oo(op):
             if "k" in op:
                 return self._origin_const(op["k"], depth, subst)
@@ -440,9 +495,6 @@ class Body:
                 return "rt"
             p = op.get("c") or op.get("m")
             return op_place(p)
-
-        def op_place(p):
-            return apply_proj(self.origin_local(p["l"], depth, subst, stack), p["pj"], lambda l: self.origin_local(l, depth + 1, subst, stack))
 
         if kind == "call":
             f = node["fn"]
@@ -938,7 +990,7 @@ class OnlyIf:
         if p is None:
             return False
         if p["pj"]:
-            return self._implies_place_value(p, pred, cl)
+            return self._implies_place_value(p, pred, cl, at)
         return self.implies_local(p["l"], pred, cl, ())
 
     def _const_satisfies(self, c, pred):
@@ -965,8 +1017,8 @@ class OnlyIf:
                 return False
         return None
 
-    def _implies_place_value(self, p, pred, cl):
-        o = self.body.origin_place(p, 0, self.subst)
+    def _implies_place_value(self, p, pred, cl, at=None):
+        o = self.body.origin_place(p, 0, self.subst, at)
         pb = self._pred_bool(pred)
         for lit in cl.lits:
             if lit.kind == "bool" and pb is not None and lit.origin.search(o) is not None and pb == lit.val:
@@ -1013,7 +1065,7 @@ class OnlyIf:
                 return self.guarded_block(site.bb, cl)
             p = o.get("c") or o.get("m")
             if p["pj"]:
-                if self._implies_place_value(p, pred, cl):
+                if self._implies_place_value(p, pred, cl, site):
                     return True
                 return self.guarded_block(site.bb, cl)
             if self.implies_local(p["l"], pred, cl, stack):
@@ -1028,8 +1080,8 @@ class OnlyIf:
             op = rv["op"]
             pb = self._pred_bool(pred)
             if op in BINOP_CMP and pb is not None:
-                oa = b.origin_op(rv["a"], 0, self.subst)
-                ob = b.origin_op(rv["b"], 0, self.subst)
+                oa = b.origin_op(rv["a"], 0, self.subst, site)
+                ob = b.origin_op(rv["b"], 0, self.subst, site)
                 if self._cmp_establishes(BINOP_CMP[op], pb, oa, ob, cl):
                     return True
             if op == "BitAnd" and pb is True:
@@ -1040,7 +1092,7 @@ class OnlyIf:
                     return True
             return self.guarded_block(site.bb, cl)
         if k == "discr":
-            return self._discr_implies(rv, pred, cl) or self.guarded_block(site.bb, cl)
+            return self._discr_implies(rv, pred, cl, site) or self.guarded_block(site.bb, cl)
         if k == "agg" and rv.get("ak") == "adt":
             if pred[0] == "variants" and rv["variant"] not in pred[1]:
                 return True
@@ -1049,11 +1101,11 @@ class OnlyIf:
             return self.implies_op(rv["o"], pred, cl, site) or self.guarded_block(site.bb, cl)
         return self.guarded_block(site.bb, cl)
 
-    def _discr_implies(self, rv, pred, cl):
+    def _discr_implies(self, rv, pred, cl, site=None):
         b = self.body
         p = rv["p"]
         adt = rv.get("adt")
-        o = b.origin_place(p, 0, self.subst)
+        o = b.origin_place(p, 0, self.subst, site)
         names = self._variant_names(adt)
         if names is None:
             return False
@@ -1120,7 +1172,7 @@ class OnlyIf:
         if name is None:
             return self.guarded_block(site.bb, cl)
         resolved = f.get("resolved") or name
-        args = [b.origin_op(a, 0, self.subst) for a in node["args"]]
+        args = [b.origin_op(a, 0, self.subst, site) for a in node["args"]]
         pb = self._pred_bool(pred)
         if name in CMP_METHODS and pb is not None and len(args) == 2:
             if self._cmp_establishes(CMP_METHODS[name], pb, args[0], args[1], cl):
